@@ -166,6 +166,11 @@ def install(I):
                 raise PyRaise(SymExc(type(e), (), origin="float()")) from None
         return SymV(fn("py_float", V, V)(I.lift(v)))
 
+    @reg(divmod)
+    def _divmod(I, args, kw, star, dstar, node):
+        a, b = args
+        return PyTuple([I.binop("floordiv", a, b), I.binop("mod", a, b)])
+
     @reg(abs)
     def _abs(I, args, kw, star, dstar, node):
         (v,) = args
